@@ -44,16 +44,18 @@ func envOr(k, d string) string {
 // ---- configuration (checks.json) ----
 
 type RunCfg struct {
-	Dir        string   `json:"dir"`   // package directory relative to the repo root
-	Float      string   `json:"float"` // "grid" (default) | "ieee"
-	Solver     string   `json:"solver"`
-	Quick      []string `json:"quick"`
-	Thorough   []string `json:"thorough"`
-	InlineGo   bool     `json:"inline_go"`
-	StepBudget int64    `json:"step_budget"`
-	TimeoutS   int      `json:"timeout_s"`
-	InitPkgs   []string `json:"init_pkgs"` // extra core packages whose init runs
-	Samples    int      `json:"samples"`
+	Dir          string   `json:"dir"`   // package directory relative to the repo root
+	Float        string   `json:"float"` // "grid" (default) | "ieee"
+	Solver       string   `json:"solver"`
+	Quick        []string `json:"quick"`
+	Thorough     []string `json:"thorough"`
+	InlineGo     bool     `json:"inline_go"`
+	LazyGo       bool     `json:"lazy_go"`
+	SchedChoices int      `json:"sched_choices"`
+	StepBudget   int64    `json:"step_budget"`
+	TimeoutS     int      `json:"timeout_s"`
+	InitPkgs     []string `json:"init_pkgs"` // extra core packages whose init runs
+	Samples      int      `json:"samples"`
 	// functions whose map ranges (2-3 keys) are explored in every order
 	PermuteRanges []string `json:"permute_ranges"`
 }
@@ -160,7 +162,7 @@ func load(dir string, workDir string) *loaded {
 			ov[filepath.Join(repoDir, "zzverif", e.Name())] = b
 		}
 	}
-	cfg := &packages.Config{Mode: packages.LoadAllSyntax, Dir: repoDir, Overlay: ov, Env: goEnv()}
+	cfg := &packages.Config{Mode: packages.LoadAllSyntax | packages.NeedModule, Dir: repoDir, Overlay: ov, Env: goEnv()}
 	pkgs, err := packages.Load(cfg, "./"+dir, "./zzverif")
 	must(err)
 	var errs []string
@@ -185,6 +187,13 @@ func load(dir string, workDir string) *loaded {
 		} else {
 			ld.pkg = ssapkgs[k]
 			ld.ppkg = p
+		}
+	}
+	if os.Getenv("VERIF_DEBUG") != "" && ld.ppkg != nil {
+		fmt.Fprintf(os.Stderr, "module=%v\n", ld.ppkg.Module)
+		for f, v := range ld.ppkg.TypesInfo.FileVersions {
+			fmt.Fprintf(os.Stderr, "fileversion %s = %q\n", f.Name.Name, v)
+			break
 		}
 	}
 	// stub table
@@ -366,20 +375,20 @@ func nativeReplay(dir string, ld *loaded, cases []replayCase, workDir string) ([
 // ---- evidence ----
 
 type harnessReport struct {
-	Harness      string         `json:"harness"`
-	Package      string         `json:"package"`
-	Paths        int            `json:"paths"`
-	Decisions    int64          `json:"branch_decisions"`
-	MaxDecisions int            `json:"max_decisions_on_a_path"`
-	Queries      int64          `json:"solver_queries"`
-	Discharged   int64          `json:"assertion_queries_unsat"`
-	SolverS      float64        `json:"solver_s"`
-	SlowestMs    int64          `json:"slowest_query_ms"`
-	WallS        float64        `json:"wall_s"`
-	Outcomes     map[string]int `json:"path_outcomes"`
-	Asserts      map[string]int `json:"assertions_discharged_by_label"`
+	Harness      string          `json:"harness"`
+	Package      string          `json:"package"`
+	Paths        int             `json:"paths"`
+	Decisions    int64           `json:"branch_decisions"`
+	MaxDecisions int             `json:"max_decisions_on_a_path"`
+	Queries      int64           `json:"solver_queries"`
+	Discharged   int64           `json:"assertion_queries_unsat"`
+	SolverS      float64         `json:"solver_s"`
+	SlowestMs    int64           `json:"slowest_query_ms"`
+	WallS        float64         `json:"wall_s"`
+	Outcomes     map[string]int  `json:"path_outcomes"`
+	Asserts      map[string]int  `json:"assertions_discharged_by_label"`
 	Covers       map[string]bool `json:"cover_witnesses"`
-	Unknown      int            `json:"solver_unknown_answers"`
+	Unknown      int             `json:"solver_unknown_answers"`
 }
 
 func main() {
@@ -425,7 +434,7 @@ func newSession(ld *loaded, rc RunCfg, harness, prop string, known []interp.Know
 	s := &interp.Session{
 		Prog: ld.prog, Fn: fn, Harness: harness, Sizes: types.SizesFor("gc", "amd64"),
 		PropPrefix: prop, FloatMode: fm, SolverKind: rc.Solver, TimeoutS: rc.TimeoutS, StepBudget: rc.StepBudget,
-		Known: known, Stubs: ld.stubs, InlineGo: rc.InlineGo,
+		Known: known, Stubs: ld.stubs, InlineGo: rc.InlineGo, LazyGo: rc.LazyGo, SchedChoices: rc.SchedChoices,
 		IntrinsicPkgs: map[string]bool{ld.pkg.Pkg.Path(): true},
 		WantSample:    rc.Samples,
 		ExtraInits:    []*ssa.Function{ld.model.Func("init")},
@@ -433,6 +442,20 @@ func newSession(ld *loaded, rc RunCfg, harness, prop string, known []interp.Know
 	}
 	if hasArg {
 		s.Arg = &arg
+		// scheduling options travel in the harness argument: sched=lazy, choices=<n>
+		for _, kv := range strings.Split(arg, ",") {
+			k, v, _ := strings.Cut(kv, "=")
+			switch k {
+			case "sched":
+				s.LazyGo = v == "lazy"
+				s.InlineGo = v == "eager" || s.InlineGo
+			case "choices":
+				s.SchedChoices, _ = strconv.Atoi(v)
+			case "preempt":
+				s.Preemptions, _ = strconv.Atoi(v)
+				s.InlineGo = s.InlineGo || !s.LazyGo
+			}
+		}
 	}
 	if cc := os.Getenv("VERIF_CROSSCHECK"); cc != "" {
 		s.CrossCheck, _ = strconv.Atoi(cc)
@@ -497,6 +520,8 @@ func cmdRun(args []string) int {
 	solver := fs.String("solver", "z3", "solver")
 	prop := fs.String("prop", "", "property prefix filter")
 	inl := fs.Bool("inline-go", false, "run go statements inline")
+	lazy := fs.Bool("lazy-go", false, "queue go statements; run them when the spawner blocks")
+	schedN := fs.Int("sched-choices", 0, "number of symbolic scheduling choices")
 	samples := fs.Int("samples", 0, "samples")
 	permute := fs.String("permute", "", "comma-separated ssa function names whose map ranges are permuted")
 	fs.Parse(args)
@@ -506,7 +531,7 @@ func cmdRun(args []string) int {
 	_, kf := readCfg()
 	ld := load(*dir, work)
 	fmt.Printf("loaded %s in %.1fs\n", *dir, ld.loadS)
-	rc := RunCfg{Dir: *dir, Float: *float, Solver: *solver, InlineGo: *inl, Samples: *samples}
+	rc := RunCfg{Dir: *dir, Float: *float, Solver: *solver, InlineGo: *inl, LazyGo: *lazy, SchedChoices: *schedN, Samples: *samples}
 	if *permute != "" {
 		rc.PermuteRanges = strings.Split(*permute, ",")
 	}
